@@ -49,9 +49,12 @@ def run(pid, only=None, checks=None, tier="quick"):
             sh("git -C /repo reset -q && git -C /repo checkout -- .")
         else:
             try:
+                rdir = os.path.join(d, "replays")
+                shutil.rmtree(rdir, ignore_errors=True)
+                os.makedirs(rdir, exist_ok=True)
                 for c in (checks or [pid]):
                     t = time.time()
-                    r = sh(f"cd {VERIF} && timeout 1500 ./check {c} --tier {tier}")
+                    r = sh(f"cd {VERIF} && VERIF_REPLAYS={rdir} timeout 1500 ./check {c} --tier {tier}")
                     lines = [l for l in r.stdout.splitlines() if l.startswith(("VIOLATION", "KNOWN-FINDING", "OK ", "TOOL-ERROR"))]
                     res["checks"][c] = {"exit": r.returncode, "violations": sum(l.startswith("VIOLATION") for l in lines),
                                         "first": [l[:300] for l in lines if l.startswith("VIOLATION")][:3],
@@ -60,6 +63,11 @@ def run(pid, only=None, checks=None, tier="quick"):
                     print(pid, n, c, "exit", r.returncode, "violations", res["checks"][c]["violations"], flush=True)
             finally:
                 sh("git -C /repo reset -q && git -C /repo checkout -- .")
+        # keep the replay files the recorded VIOLATION lines name, drop the rest
+        keep = {w.split("replay=")[1].split()[0] for v in res["checks"].values() for w in v.get("first", []) if "replay=" in w}
+        for f in glob.glob(os.path.join(d, "replays", "*")):
+            if f not in keep:
+                os.unlink(f)
         res["detected"] = any(v["exit"] == 1 and v["violations"] > 0 for v in res["checks"].values())
         json.dump(res, open(os.path.join(d, "result.json"), "w"), indent=1)
     sh(f"git -C {VERIF} checkout -- lean/NmfuModel/Generated")
